@@ -50,7 +50,7 @@ def write_csv(path, rows, order, with_adj=True, int_opens=False, cols=None, date
             hi = max([x for x in (r['open'], r['close']) if x is not None] or [1.0]) + 1.0
             lo = max(0.001, min([x for x in (r['open'], r['close']) if x is not None] or [1.0]) - 0.5)
             cell = {'Open': fmt(r['open'], int_opens), 'High': fmt(hi), 'Low': fmt(lo), 'Close': fmt(r['close'], int_closes),
-                    'Adj Close': fmt(r['adj'], int_closes), 'Volume': str(r.get('volume', 1000 + i))}
+                    'Adj Close': fmt(r['adj'], int_closes), 'Volume': str(r.get('volume', 0 if i % 7 == 3 else 1000 + i))}     # days without a trade still have a bar
             d_ = r['date']
             if date_style == 'mdy':
                 y_, m_, dd_ = d_.split('-')
